@@ -205,6 +205,22 @@ def main(argv=None):
             rc = max(rc, 2)
             continue
         if not any(vkey(x) == key for x in rr["violations"]):
+            # not reproducible from the case alone: does it depend on what the same worker did before (stale state
+            # across calls)?  Re-run the whole job in a fresh interpreter; if the violation comes back, the job is
+            # the replayable artefact.
+            src = next((r for r in results if any(vkey(x) == key and x["case"] == v["case"] for x in r["violations"])), None)
+            again = run_worker(prop, dict(src["job"]), timeout) if src else {"error": "no source job"}
+            if "error" not in again and any(vkey(x) == key for x in again["violations"]):
+                rec = {"property": prop, "site": v["site"], "mode": v["mode"], "detail": v["detail"], "hashseed": v["hashseed"],
+                       "case": {"kind": "__job__", "job": src["job"], "expect": [v["site"], v["mode"]], "failing_case": v["case"]}}
+                with open(path, "w") as f:
+                    json.dump(rec, f, indent=1, sort_keys=True, default=str)
+                print(f"  site={v['site']} mode={v['mode']} detail={v['detail'][:300]}")
+                print("  (reproduces only after the cases the same job explored before it: state kept across calls)")
+                print(f"VIOLATION property={prop} replay={path}")
+                reported.append(key)
+                rc = max(rc, 1)
+                continue
             unreproduced.append(f"violation {key} did not reproduce in isolation (replay {path})")
             continue
         print(f"  site={v['site']} mode={v['mode']} detail={v['detail'][:300]}")
